@@ -56,7 +56,12 @@ Verdict(r) ==
                    ELSE IF sz < r.lim - 2 THEN "SmallMessageRefusedForSize" ELSE "")
            ELSE IF r.lim > 0 /\ r.res = "end" /\ ref.st = "end" /\ sz > r.lim + 2 THEN "MessageOverTheLimitAccepted"
            ELSE DecVerdict(r.s, r.res, r.msg, -1, r.q = 1)
-  IN IF r.res = "pre" THEN "CommandNotRecognisedWhenSplitAcrossReads"        \* (or, with cap = 0, when one call of the daemon was cut short)
+  IN IF r.res = "fault"
+       \* one call of the daemon failed (resource trouble): r.aft = the reply codes from the reply to DATA on, r.nlf = the number of
+       \* commands sent after the terminator.  Whatever failed: once 354 has been said, everything up to CRLF.CRLF is the message and
+       \* draws ONE reply - its lines are never answered as commands
+       THEN (IF Len(r.aft) >= 1 /\ r.aft[1] = 354 /\ Len(r.aft) > 2 + r.nlf THEN "MessageLinesAnsweredAsCommandsAfterGoAhead" ELSE "")
+     ELSE IF r.res = "pre" THEN "CommandNotRecognisedWhenSplitAcrossReads"        \* (or, with cap = 0, when one call of the daemon was cut short)
      ELSE IF v # "" THEN v
      ELSE IF r.orig # <<-1>> /\ r.msg # Lines(r.orig) THEN "RoundTripChangedMessage"     \* decode(encode(m)) = m, line by line
      ELSE IF ref.st = "end" /\ r.nlf # -1 /\ r.nlf # NumLF(SubSeq(r.s, ref.used + 1, Len(r.s))) THEN "BytesAfterTerminatorNotCommands"
